@@ -226,6 +226,84 @@ def skewed_large_cutoff_stream(ctx, md, viol):
                 cut, cut / w, L.round(3).tolist(), A.round(2).tolist(), sorted(wantq_all - set(gq))[:6], sorted(set(gq) - wantq_all - maybeq_all)[:6]), rp)
 
 
+def _brute(X, B):
+    """all-pairs minimum-image distances in float64 (images -2..2 of the nearest one)"""
+    D = X[None, :, :] - X[:, None, :]
+    D = D - np.rint(D @ np.linalg.inv(B)) @ B
+    best = np.full(D.shape[:2], np.inf)
+    for i in range(-2, 3):
+        for j in range(-2, 3):
+            for k in range(-2, 3):
+                best = np.minimum(best, np.linalg.norm(D + (i * B[0] + j * B[1] + k * B[2]), axis=-1))
+    np.fill_diagonal(best, np.inf)
+    return best
+
+
+def central_query_stream(ctx, md, viol):
+    """A solute in the middle of a rectangular solvent box: the query atoms plus the cutoff fit inside the primary cell, while the other
+    atoms are stored in whatever periodic image they drifted to (an unwrapped trajectory).  compute_neighbors must find the minimum-image
+    neighbours wherever they are stored."""
+    rng = ctx.rng
+    for k in range(ctx.n(10, 80)):
+        L = np.array([rng.uniform(3.0, 5.0) for _ in range(3)])
+        n = 200
+        X = np.array([[rng.random() * L[a] for a in range(3)] for _ in range(n)])
+        centre = L / 2
+        q = np.argsort(np.linalg.norm(X - centre, axis=1))[:4]
+        reach = float(np.min(np.minimum(X[q].min(0), L - X[q].max(0))))
+        cut = min(0.9 * reach, 0.45 * float(L.min())) * rng.uniform(0.5, 1.0)
+        S = np.array([[rng.randrange(-2, 3) for _ in range(3)] for _ in range(n)], dtype=np.float64) * L
+        S[q] = 0.0
+        t = md.Trajectory((X + S)[None].astype(np.float32), None, unitcell_lengths=[L], unitcell_angles=[[90.0, 90.0, 90.0]])
+        B = t.unitcell_vectors[0].astype(np.float64); X32 = t.xyz[0].astype(np.float64)
+        best = _brute(X32, B)
+        hay = None if k % 2 else np.array(sorted(set(range(n)) - set(q.tolist())))
+        got = [int(j) for j in md.compute_neighbors(t, cut, q, haystack_indices=hay)[0]]
+        cand = range(n) if hay is None else hay.tolist()
+        want = {j for j in cand if any(best[i, j] < cut - 1e-5 for i in q if i != j)}
+        maybe = {j for j in cand if any(abs(best[i, j] - cut) <= 1e-5 for i in q if i != j)}
+        ctx.case(None, ("central-query", k)); ctx.count("central-query systems (unwrapped haystack)")
+        if len(set(got)) != len(got) or not want <= set(got) or not set(got) <= want | maybe:
+            viol("neighbors|central-query|unwrapped-haystack", "compute_neighbors(cutoff=%.4f) around 4 atoms in the middle of the rectangular cell %s with the other atoms stored in other periodic images: missing %s, extra %s" % (
+                cut, L.round(3).tolist(), sorted(want - set(got))[:6], sorted(set(got) - want - maybe)[:6]), dict(lengths=L.tolist(), cutoff=cut, query=q.tolist(), seed=ctx.seed, case=k))
+
+
+def almost_rectangular_stream(ctx, md, viol):
+    """Cells whose angles differ from 90 degrees by a few thousandths of a degree (flexible-cell or shear runs): still skewed cells.  A pair
+    whose minimum image crosses the tilted face is placed at a distance that differs from the cutoff by less than the tilt moves it."""
+    rng = ctx.rng
+    for k in range(ctx.n(12, 80)):
+        L = np.array([rng.uniform(3.5, 4.5) for _ in range(3)])
+        A = np.array([90.0, 90.0, 90.0]); ax = rng.randrange(3)
+        A[ax] += rng.choice([-1, 1]) * rng.choice([0.002, 0.003, 0.004, 0.005])
+        if rng.random() < 0.3:
+            A[(ax + 1) % 3] += rng.choice([-1, 1]) * 0.003
+        dx = rng.choice([-0.5, 0.5, 0.3])
+        p0 = np.array([2.0, 0.1, 2.0]); p1 = np.array([2.0 + dx, L[1] - 0.1, 2.0 + rng.choice([0.0, 0.2])])
+        if rng.random() < 0.5:                                # the same across the c face
+            p0 = np.array([2.0, 2.0, 0.1]); p1 = np.array([2.0 + dx, 2.0 + rng.choice([0.0, 0.2]), L[2] - 0.1])
+        t = md.Trajectory(np.array([[p0, p1]], dtype=np.float32), None, unitcell_lengths=[L], unitcell_angles=[A])
+        B = t.unitcell_vectors[0].astype(np.float64); X32 = t.xyz[0].astype(np.float64)
+        d0 = float(_brute(X32, B)[0, 1])
+        # the same pair in the exactly rectangular cell: how far the tilt moves the distance
+        B0 = np.diag(np.diag(B)); d_rect = float(_brute(X32, B0)[0, 1])
+        if abs(d0 - d_rect) < 6e-5:
+            ctx.count("almost-rectangular pairs not moved enough by the tilt (skipped)")
+            continue
+        cut = 0.5 * (d0 + d_rect)                              # between the true distance and the rectangular-cell distance
+        inside = d0 < cut
+        ctx.case(None, ("almost-rectangular", k)); ctx.count("almost-rectangular cells")
+        nl = [sorted(int(j) for j in x) for x in md.compute_neighborlist(t, cut)]
+        nb = [int(j) for j in md.compute_neighbors(t, cut, [0])[0]]
+        rp = dict(lengths=L.tolist(), angles=A.tolist(), xyz=t.xyz[0].tolist(), cutoff=cut, distance=d0, seed=ctx.seed, case=k)
+        if nl != ([[1], [0]] if inside else [[], []]):
+            viol("neighborlist|almost-rectangular", "compute_neighborlist(cutoff=%.6f) in the cell %s / %s: %s, the minimum-image distance of the two atoms is %.6f (%.6f if the cell were rectangular)" % (
+                cut, L.round(3).tolist(), A.tolist(), nl, d0, d_rect), rp)
+        if nb != ([1] if inside else []):
+            viol("neighbors|almost-rectangular", "compute_neighbors(cutoff=%.6f) in the cell %s / %s: %s, the minimum-image distance of the two atoms is %.6f (%.6f if the cell were rectangular)" % (
+                cut, L.round(3).tolist(), A.tolist(), nb, d0, d_rect), rp)
+
+
 def degenerate_extent_stream(ctx, md, viol):
     """Non-periodic systems whose extent along y or z is zero or minute (a planar molecule lying in a coordinate plane, up to rounding
     noise), and cutoffs far beyond the system size: the voxel arithmetic must not overflow."""
@@ -366,6 +444,8 @@ def run(ctx):
     voxel_stream(ctx, viol)
     skewed_large_cutoff_stream(ctx, md, viol)
     degenerate_extent_stream(ctx, md, viol)
+    central_query_stream(ctx, md, viol)
+    almost_rectangular_stream(ctx, md, viol)
     for key, (what, rp) in seen.items():
         ctx.violation(key, what, rp)
 
